@@ -298,7 +298,10 @@ def fn_to_sympy(
     """
     try:
         fn_def = get_fn_ast(fn)
-        fn_args = [str(arg.arg) for arg in fn_def.args.args]
+        # positional-only parameters (def f(a, /, b)) come first
+        fn_args = [
+            str(arg.arg) for arg in (*fn_def.args.posonlyargs, *fn_def.args.args)
+        ]
 
         sympy_expr = _handle_fn_body(
             fn_def.body,
